@@ -1,6 +1,7 @@
 import PenneModel.Lex.Lemmas
 import PenneModel.Lex.Lexemes
 import PenneModel.Lex.Quote
+import PenneModel.Lex.Total
 /-
   C14 — both lexers implement the same lexical grammar, with exact spans.  Property theorems about the
   reference lexer model (`Lex/Model.lean`), which the correspondence run compares with both real lexers.
@@ -257,6 +258,12 @@ theorem string_literal_exact {sps : List Char} {bs : List Nat} {n : Nat} (h : QI
 theorem char_literal_exact {sp : List Char} {b : Nat} (h : QItem '\'' sp [b]) :
     LexemeP AfterAny ('\'' :: (sp ++ ['\''])) (.chr b) :=
   lexemeP_char_item h
+
+/-- **the lexer model is total**: on every line, of any content, the fuel `lex_line` supplies is never exhausted — any larger
+    fuel gives the same tokens (each step consumes at least one character or ends the line: `lexStep_progress`) -/
+theorem lexer_total (ln off : Nat) (line : List Char) (fuel : Nat) (hf : line.length < fuel) :
+    lexLineAux ln fuel 0 off line = lexLine ln off line :=
+  lexLine_total ln off line fuel hf
 
 /-- **C14, one line**: a line made of tokens in any legal spellings (`Good`: each item a `Lexeme`), indented by any blanks,
     separated by any non-empty runs of blanks and optionally ended by a `//` comment, is split into exactly those tokens, each
